@@ -441,7 +441,7 @@ pub fn relation_slots<E: Field>(circuit: &Circuit<E>) -> Vec<bool> {
 
 /// Give every *dead* fused-product slot (an `intermediate_out` of a `MulAdd` that no relation
 /// refers to) the value `a*b`. Such a slot is not observable by any relation, so the source
-/// program's statement is existential in it.
+/// program's statement is existential in it (slots of program inputs excepted, see below).
 pub fn settle_dead_products<E: Field>(circuit: &Circuit<E>, w: &mut [E]) -> usize {
     let live = relation_slots(circuit);
     let mut n = 0;
@@ -454,7 +454,11 @@ pub fn settle_dead_products<E: Field>(circuit: &Circuit<E>, w: &mut [E]) -> usiz
             ..
         } = op
         {
-            if !live[io.0 as usize] {
+            // ...unless the slot is also the slot of a program INPUT (a private or public input
+            // connected to the product): an input is part of the assignment the statement
+            // quantifies over, its value is not the compiler's to choose
+            let is_input = circuit.private_input_rows.iter().chain(circuit.public_rows.iter()).any(|r| r == io);
+            if !live[io.0 as usize] && !is_input {
                 w[io.0 as usize] = w[a.0 as usize] * w[b.0 as usize];
                 n += 1;
             }
